@@ -7,10 +7,12 @@ package main
 
 import (
 	"bytes"
+	"encoding/json"
 	"fmt"
 	"io"
 	"net/http"
 	"reflect"
+	"strconv"
 	"strings"
 
 	"verif/mc/hcli"
@@ -130,7 +132,7 @@ func partC04H(a *hcli.Args, rep *report.Report, univName string, u *schema.Unive
 	}
 	strs := shortStrings(sigma, L)
 	subst := []byte{'(', ')', ',', ':', '"', '{', '}', '[', ']', '\\', 0x00, 0xff, '%', '&', '=', ' '}
-	sq.Bounds = fmt.Sprintf("every method of every resource: the valid request sent by the generated client with (a0) an undeclared query parameter under three names (sorting first, last, in between) x 7 well-formed values: the request must reach the same method with the same arguments; (a) an extra query parameter whose value is each of the %d strings of <=%d symbols over %v, the whole query replaced by each of them, every truncation / single-byte edit of the valid query; (b) the entity key segment replaced by each of the strings, the entity key dropped from / added to the path, every key position of the path replaced on its own and every pair of key positions replaced together by all pairs of strings of <=2 symbols; (c) every truncation and single-byte deletion / substitution (%d bytes) of the JSON body; (d) method / content-type / protocol-version header variants; (e) tunnelled envelopes (both parts, one part missing, none, foreign part, doubled, unterminated, truncated every 7 bytes, form-encoded, no boundary); oracle: no panic escapes, status < 500, no stack trace; when a declared parameter loses its parenthesis balance, or the body is a non-empty strict prefix that is not JSON: 4xx and no resource invocation", len(strs), L, sigma, len(subst))
+	sq.Bounds = fmt.Sprintf("every method of every resource: the valid request sent by the generated client with (a0) an undeclared query parameter under three names (sorting first, last, in between) x 7 well-formed values: the request must reach the same method with the same arguments; (a) an extra query parameter whose value is each of the %d strings of <=%d symbols over %v, the whole query replaced by each of them, every truncation / single-byte edit of the valid query; (b) the entity key segment replaced by each of the strings, the entity key dropped from / added to the path, every key position of the path replaced on its own and every pair of key positions replaced together by all pairs of strings of <=2 symbols; (c0) unknown fields of 4 shapes added to the JSON body (top level, every entities value, every elements item): same method, same arguments; (c) every truncation and single-byte deletion / substitution (%d bytes) of the JSON body; (d) method / content-type / protocol-version header variants; (e) tunnelled envelopes (both parts, one part missing, none, foreign part, doubled, unterminated, truncated every 7 bytes, form-encoded, no boundary); oracle: no panic escapes, status < 500, no stack trace; when a declared parameter loses its parenthesis balance, or the body is a non-empty strict prefix that is not JSON: 4xx and no resource invocation", len(strs), L, sigma, len(subst))
 	sr.Bounds = "every method of every resource: the valid response with every truncation / single-byte edit of its body, X-RestLi-Id and Location replaced by each short ROR2 string, error-header / status / content-type variants; oracle: the generated client call returns (value or error) and never panics"
 	w := NewWorld(u, DefaultConfig)
 	failq := func(kind string, r *schema.Resource, m *schema.Method, what, detail string, raw []byte) {
@@ -249,6 +251,74 @@ func partC04H(a *hcli.Args, rep *report.Report, univName string, u *schema.Unive
 					}
 				}
 				_ = validCall
+			}
+			// (c0) unknown fields in the request body (top level, every value of "entities", every item of "elements"):
+			// skipped, the request reaches the same method with the same arguments
+			if len(body) > 0 {
+				w.reset()
+				if x, err := wire.DoRaw(w.transport.Handler, raw); err == nil && x != nil && len(w.calls) == 1 {
+					ref := w.calls[0]
+					var doc interface{}
+					dec := json.NewDecoder(bytes.NewReader(body))
+					dec.UseNumber()
+					if dec.Decode(&doc) == nil {
+						var sites [][]string
+						if top, ok := doc.(map[string]interface{}); ok {
+							sites = append(sites, []string{})
+							if ents, ok := top["entities"].(map[string]interface{}); ok && m.Name == "batch_update" {
+								for k := range ents {
+									sites = append(sites, []string{"entities", k})
+								}
+							}
+							if els, ok := top["elements"].([]interface{}); ok {
+								for i := range els {
+									sites = append(sites, []string{"elements", "[" + strconv.Itoa(i) + "]"})
+								}
+							}
+						}
+						for _, site := range sites {
+							for _, shape := range []string{`7`, `null`, `{"a":{"b":[1,{"c":null}]}}`, `[1,[2],{"k":"v"}]`} {
+								var d2 interface{}
+								dd := json.NewDecoder(bytes.NewReader(body))
+								dd.UseNumber()
+								_ = dd.Decode(&d2)
+								o := jsonObjectAt(d2, site)
+								if o == nil {
+									continue
+								}
+								var extra interface{}
+								_ = json.Unmarshal([]byte(shape), &extra)
+								o["zzUnknown"], o["$aaUnknown"] = extra, extra
+								nb, _ := json.Marshal(d2)
+								var hs []string
+								for _, h := range headers {
+									if !strings.HasPrefix(strings.ToLower(h), "content-length:") {
+										hs = append(hs, h)
+									}
+								}
+								hs = append(hs, fmt.Sprintf("Content-Length: %d", len(nb)))
+								mraw := joinRaw(line, hs, nb)
+								w.calls = nil
+								x2, err := wire.DoRaw(w.transport.Handler, mraw)
+								sq.Evaluations++
+								sq.Transitions++
+								sq.Traces++
+								switch {
+								case err != nil || x2 == nil || x2.Response == nil:
+									sq.Class("not-an-http-request")
+								case x2.Panic != nil:
+									failq("panic-escaped", r, m, "unknown-body-field", fmt.Sprintf("panic escaped ServeHTTP: %v", x2.Panic), mraw)
+								case len(w.calls) != 1 || w.calls[0].method != ref.method:
+									failq("unknown-body-field-not-skipped", r, m, "unknown-body-field", fmt.Sprintf("status %d body %.200q: the request with unknown fields at %q did not reach %s (invocations: %d)", x2.Response.StatusCode, x2.Body, strings.Join(site, "/"), ref.method, len(w.calls)), mraw)
+								case renderArgs(w.calls[0].args) != renderArgs(ref.args):
+									failq("unknown-body-field-disturbs", r, m, "unknown-body-field", fmt.Sprintf("with unknown fields at %q the resource received %s instead of %s", strings.Join(site, "/"), renderArgs(w.calls[0].args), renderArgs(ref.args)), mraw)
+								default:
+									sq.Class("ok:unknown-body-field-skipped")
+								}
+							}
+						}
+					}
+				}
 			}
 			// (a) query
 			for _, sx := range strs {
